@@ -13,7 +13,9 @@ Definition gen_ll (t : Q) (o : gp_oracle) : Q :=
   loglikQ (tab (o_var o) (o_sd o)) (tab (o_z o) (o_logcdf o)) t (o_mean o) (o_var o).
 
 Definition gen_grad_coord (t : Q) (o : gp_oracle) (gm gv : Q) : Q :=
-  gradQ (tab (o_var o) (o_sd o)) (tab (o_z o) (o_pdf o)) (tab (o_z o) (o_cdf o))
+  gradQ (tab (o_var o) (o_sd o)) (tab (o_lr o) (o_ratio o))
+        (tab (o_z o) (o_pdf o)) (tab (o_z o) (o_cdf o))
+        (tab (o_z o) (o_logpdf o)) (tab (o_z o) (o_logcdf o))
         t (o_mean o) (o_var o) gm gv.
 
 Definition gen_ll_row (b : list bound) (t : Q) (r : row) : ext :=
